@@ -62,6 +62,8 @@ type Term struct {
 	Hi   int    // OpExtract
 	Lo   int
 	ID   int
+	kz   uint64 // bits known to be 0
+	ko   uint64 // bits known to be 1
 }
 
 // TermTable hash-conses terms. Not safe for concurrent use: one per worker.
@@ -102,10 +104,115 @@ func (tt *TermTable) intern(t *Term) *Term {
 	if e, ok := tt.tab[k]; ok {
 		return e
 	}
+	if t.W > 0 && t.Op != OpConst {
+		knownBits(t)
+		if t.kz|t.ko == mask(t.W) {
+			// every bit is determined: the term is a constant
+			c := tt.Const(t.W, t.ko)
+			tt.tab[k] = c
+			return c
+		}
+	} else if t.Op == OpConst && t.W > 0 {
+		t.ko = t.Val
+		t.kz = ^t.Val & mask(t.W)
+	}
 	tt.nextID++
 	t.ID = tt.nextID
 	tt.tab[k] = t
 	return t
+}
+
+// knownBits fills t.kz / t.ko from the operands (cheap forward analysis).
+func knownBits(t *Term) {
+	m := mask(t.W)
+	a := func(i int) (uint64, uint64) { return t.Args[i].kz, t.Args[i].ko }
+	var kz, ko uint64
+	switch t.Op {
+	case OpBvAnd:
+		z0, o0 := a(0)
+		z1, o1 := a(1)
+		kz, ko = z0|z1, o0&o1
+	case OpBvOr:
+		z0, o0 := a(0)
+		z1, o1 := a(1)
+		kz, ko = z0&z1, o0|o1
+	case OpBvXor:
+		z0, o0 := a(0)
+		z1, o1 := a(1)
+		kz = (z0 & z1) | (o0 & o1)
+		ko = (z0 & o1) | (o0 & z1)
+	case OpBvNot:
+		z0, o0 := a(0)
+		kz, ko = o0, z0
+	case OpBvShl:
+		if t.Args[1].IsConst() && t.Args[1].Val < uint64(t.W) {
+			k := t.Args[1].Val
+			z0, o0 := a(0)
+			kz = (z0 << k) | ((uint64(1) << k) - 1)
+			ko = o0 << k
+		}
+	case OpBvLshr:
+		if t.Args[1].IsConst() && t.Args[1].Val < uint64(t.W) {
+			k := t.Args[1].Val
+			z0, o0 := a(0)
+			kz = (z0 >> k) | (m &^ (m >> k))
+			ko = o0 >> k
+		}
+	case OpZext:
+		z0, o0 := a(0)
+		kz = z0 | (m &^ mask(t.Args[0].W))
+		ko = o0
+	case OpExtract:
+		z0, o0 := a(0)
+		kz, ko = z0>>uint(t.Lo), o0>>uint(t.Lo)
+	case OpConcat:
+		z0, o0 := a(0)
+		z1, o1 := a(1)
+		lw := uint(t.Args[1].W)
+		kz, ko = z0<<lw|z1, o0<<lw|o1
+	case OpIte:
+		z1, o1 := t.Args[1].kz, t.Args[1].ko
+		z2, o2 := t.Args[2].kz, t.Args[2].ko
+		kz, ko = z1&z2, o1&o2
+	case OpBvAdd:
+		z0, o0 := a(0)
+		z1, o1 := a(1)
+		carry := uint64(0)
+		for i := 0; i < t.W; i++ {
+			b := uint64(1) << uint(i)
+			if (z0|o0)&b == 0 || (z1|o1)&b == 0 {
+				break
+			}
+			x, y := (o0>>uint(i))&1, (o1>>uint(i))&1
+			s := x + y + carry
+			if s&1 == 1 {
+				ko |= b
+			} else {
+				kz |= b
+			}
+			carry = s >> 1
+		}
+	case OpBvMul:
+		// trailing zeros add up
+		z0, _ := a(0)
+		z1, _ := a(1)
+		tz := bits.TrailingZeros64(^z0) + bits.TrailingZeros64(^z1)
+		if tz >= 64 {
+			tz = 64
+		}
+		if tz > 0 {
+			kz = mask(tz)
+		}
+	case OpBvUrem:
+		if t.Args[1].IsConst() && t.Args[1].Val > 0 {
+			hb := 64 - bits.LeadingZeros64(t.Args[1].Val-1)
+			kz = m &^ mask(hb)
+			if hb == 0 {
+				kz = m
+			}
+		}
+	}
+	t.kz, t.ko = kz&m, ko&m
 }
 
 func mask(w int) uint64 {
@@ -284,6 +391,9 @@ func (tt *TermTable) Eq(a, b *Term) *Term {
 	}
 	if a.IsConst() {
 		a, b = b, a
+	}
+	if b.IsConst() && a.W > 0 && (b.Val&a.kz != 0 || ^b.Val&a.ko != 0) {
+		return tt.False
 	}
 	// eq(ite(c,k1,k2), k) with constant leaves folds to a Bool over c
 	if b.IsConst() && a.Op == OpIte && a.W != 0 {
@@ -721,7 +831,7 @@ func (tt *TermTable) ubound(a *Term, depth int) uint64 {
 			return a.Args[1].Val - 1
 		}
 	}
-	return mask(a.W)
+	return mask(a.W) &^ a.kz
 }
 
 func (tt *TermTable) Ult(a, b *Term) *Term {
